@@ -700,6 +700,29 @@ impl World {
             hostile: true,
         });
         let fi = self.flights.len() - 1;
+        self.deliver_idx(fi, false)?;
+        // follow-up: a well-formed SYN with an empty digest makes the victim serialise everything it
+        // now holds, so state poisoned by the datagram above shows at once
+        if !self.running(to) {
+            return Ok(());
+        }
+        let cluster = self.cfg.cluster_ids[self.cfg.cluster_of[to]].clone();
+        let syn = crate::codec::Msg::Syn { digest: vec![], cluster };
+        let bytes = crate::codec::encode(&syn, crate::codec::BlockPlan::Auto { size: 16_384 });
+        self.flight_seq += 1;
+        self.flights.push(Flight {
+            seq: self.flight_seq,
+            from: to,
+            from_inc: inc,
+            to,
+            bytes: std::sync::Arc::new(bytes),
+            msg: std::sync::Arc::new(syn),
+            answers: None,
+            answers_inc: inc,
+            taint: Default::default(),
+            hostile: true,
+        });
+        let fi = self.flights.len() - 1;
         self.deliver_idx(fi, false).map(|_| ())
     }
 }
